@@ -32,7 +32,7 @@ def main():
         return 2
     except Exception as e:
         tb = traceback.extract_tb(e.__traceback__)
-        in_impl = [f for f in tb if f.filename.startswith('/repo/')]
+        in_impl = [f for f in tb if '/pykoop/' in f.filename]
         traceback.print_exc()
         if in_impl:
             # the implementation raised where the harness expects it to work on valid input: the correspondence
